@@ -404,30 +404,40 @@ func checkC10Tables(c *Ctx, r *Report) {
 	var classify, passedIn []string
 	var s2 []string
 	if fi := need(c, r, "C10.c", "core/validators.classifyAttributes"); fi != nil {
-		for _, sw := range w.switches(fi, func(tag ast.Expr) bool { return strings.HasSuffix(exprString(tag), ".Name") }) {
-			for _, l := range sw.Labels {
-				if l != "Route" {
-					classify = append(classify, strings.ToLower(l))
-				}
+		labs, ps := w.dispatchLabels(fi, func(tag ast.Expr) bool {
+			// the attribute's name itself (a selector, or a local/parameter holding it), not something computed from it
+			a := w.exprAtoms(fi, tag)
+			return a.Fields["core/annotations.Attribute.Name"] && !a.Calls["strings.ToLower"] && !a.Ops["=="] && !a.Ops["!="]
+		})
+		for _, l := range labs {
+			if l != "Route" {
+				classify = append(classify, strings.ToLower(l))
 			}
-			s2 = append(s2, w.pos(sw.Pos))
+		}
+		for _, p := range ps {
+			s2 = append(s2, w.pos(p))
 		}
 	}
 	if fi := need(c, r, "C10.c", "core/metadata.GetParamPassedIn"); fi != nil {
-		for _, sw := range w.switches(fi, func(tag ast.Expr) bool {
-			cl, ok := tag.(*ast.CallExpr)
-			return ok && calleeOfCall(fi.Pkg.TypesInfo, cl) == "strings.ToLower"
-		}) {
-			passedIn = append(passedIn, sw.Labels...)
-			s2 = append(s2, w.pos(sw.Pos))
+		{
+			// the lower-cased attribute name (the call itself, or a local holding it)
+			isLowered := func(tag ast.Expr) bool {
+				a := w.exprAtoms(fi, tag)
+				return a.Calls["strings.ToLower"] && a.Fields["core/annotations.Attribute.Name"]
+			}
+			labs, ps := w.dispatchLabels(fi, isLowered)
+			passedIn = append(passedIn, labs...)
+			for _, p := range ps {
+				s2 = append(s2, w.pos(p))
+			}
 		}
 		// every PassedIn* constant is produced by some arm
 		want := values(w.constsOfType(w.lookupType("definitions", "ParamPassedIn")))
 		var produced []string
 		for _, ex := range exitsOf(fi.SSA) {
 			if ex.Ret != nil && ex.Kind != exitFailure {
-				if k, ok := ex.Ret.Results[0].(*ssa.Const); ok && k.Value != nil {
-					produced = append(produced, constString(k.Value))
+				for _, ov := range w.resultConstants(ex.Ret.Results[0]) {
+					produced = append(produced, ov)
 				}
 			}
 		}
